@@ -101,13 +101,15 @@ structure DState where
   bootstrappedOnce : Bool
   refreshStarted : Bool
   frOracle : List Addr
+  /-- the instant of the latest step (time never runs backwards) -/
+  clock : Nat
   deriving Repr
 
 def DState.new (selfId : Bytes) (addr : Addr) (readOnly : Bool) (announcePort : Option Nat) (failAddrs : List Addr)
     (cfg : BConfig) (now : Nat) : DState :=
   { h := HState.new selfId addr.v6 readOnly announcePort failAddrs now, cfg := cfg, addr := addr, phase := .awaitStart,
     attempt := 0, bseq := 0, stale := [], pub := .awaitStart, pubVersion := 0, seenVersion := 0, waiters := [],
-    nextWaiter := 0, queued := [], bootstrappedOnce := false, refreshStarted := false, frOracle := [] }
+    nextWaiter := 0, queued := [], bootstrappedOnce := false, refreshStarted := false, frOracle := [], clock := now }
 
 def liftH (effs : List HEffect) : List DEv :=
   effs.map fun e => match e with
@@ -207,50 +209,53 @@ def DState.sweepDone (s : DState) (now : Nat) : DState × List DEv :=
     let (s, e) := s.setPub .bootstrapped
     ({ s with phase := .bootstrapped (now + Constants.PERIODIC_CHECK_TIMEOUT_ns), attempt := 0 }, [DEv.bsweep good quest] ++ e)
 
+/-- the next request of the first round goes out -/
+def DState.firstRoundSend (s : DState) (tid : Tid) (rl nl : List Addr) (count : Nat) (active : List Pending)
+    (responses stopAt : Nat) (now : Nat) : Option (DState × List DEv) :=
+  match pickFirstRound s.frOracle rl nl with
+  | none => none
+  | some (dst, oracle', rl', nl') =>
+    let ok := !s.h.failAddrs.contains dst
+    let active' := if ok then active ++ [⟨dst, tid, now + Constants.INITIAL_TIMEOUT_ns⟩] else active
+    some ({ s with frOracle := oracle', phase := .initial tid rl' nl' none (if ok then count + 1 else count) active' responses stopAt },
+          [DEv.send dst (.sym tid) (.req (.findNode s.h.selfId s.h.selfId none)) ok])
+
+/-- the requests of bucket round `k` go out -/
+def DState.bucketRound (s : DState) (k : Nat) (now : Nat) : DState × List DEv :=
+  let picks := s.bucketPicks k now
+  let acc := picks.foldl (bucketSend (flipBit s.h.selfId k) now) (s, [], [])
+  let evs := if picks.isEmpty then acc.2.2 else [DEv.bround k picks.length] ++ acc.2.2
+  if acc.2.1.isEmpty then ({ acc.1 with phase := .bucketStart (k + 1) }, evs)
+  else ({ acc.1 with phase := .buckets k acc.2.1 }, evs)
+
+/-- the periodic check of a bootstrapped node -/
+def DState.periodicCheck (s : DState) (now : Nat) : DState × List DEv :=
+  if s.h.table.numGood now < Constants.GOOD_NODE_THRESHOLD then
+    let r := s.beginAttempt now
+    (r.1, [DEv.bcheck] ++ r.2)
+  else ({ s with phase := .bootstrapped (now + Constants.PERIODIC_CHECK_TIMEOUT_ns) }, [.bcheck])
+
 /-- one transition of the bootstrap worker at `now`; `none` when it has to wait -/
 def DState.bStep (s : DState) (now : Nat) : Option (DState × List DEv) :=
   match s.phase with
   | .awaitStart => none
   | .forever => none
   | .sleeping wake => if wake ≤ now then some (s.beginAttempt now) else none
-  | .bootstrapped nextCheck =>
-    if nextCheck ≤ now then
-      if s.h.table.numGood now < Constants.GOOD_NODE_THRESHOLD then
-        let r := s.beginAttempt now
-        some (r.1, [DEv.bcheck] ++ r.2)
-      else some ({ s with phase := .bootstrapped (now + Constants.PERIODIC_CHECK_TIMEOUT_ns) }, [.bcheck])
-    else none
+  | .bootstrapped nextCheck => if nextCheck ≤ now then some (s.periodicCheck now) else none
   | .initial tid rl nl sleepUntil count active responses stopAt =>
     let live := active.filter (fun p => now < p.deadline)
     if live.length < active.length then
       some ({ s with phase := .initial tid rl nl sleepUntil count live responses stopAt }, [])
+    else if rl.isEmpty && nl.isEmpty then
+      if active.isEmpty then some (s.finishInitial responses [] now) else none
     else
-      let doSend : Option (DState × List DEv) :=
-        match pickFirstRound s.frOracle rl nl with
-        | none => none
-        | some (dst, oracle', rl', nl') =>
-          let ok := !s.h.failAddrs.contains dst
-          let ev := DEv.send dst (.sym tid) (.req (.findNode s.h.selfId s.h.selfId none)) ok
-          let active' := if ok then active ++ [⟨dst, tid, now + Constants.INITIAL_TIMEOUT_ns⟩] else active
-          some ({ s with frOracle := oracle', phase := .initial tid rl' nl' none (if ok then count + 1 else count) active' responses stopAt }, [ev])
-      if rl.isEmpty && nl.isEmpty then
-        if active.isEmpty then some (s.finishInitial responses [] now) else none
-      else
-        match sleepUntil with
-        | some t => if t ≤ now then doSend else none
-        | none =>
-          if count > Constants.BOOTSTRAP_THROTTLE_AFTER then
-            some ({ s with phase := .initial tid rl nl (some (now + throttleDelay)) count active responses stopAt }, [])
-          else doSend
-  | .bucketStart k =>
-    if k < maxBuckets then
-      let picks := s.bucketPicks k now
-      let target := flipBit s.h.selfId k
-      let (s, active, evs) := picks.foldl (bucketSend target now) (s, [], [])
-      let evs := if picks.isEmpty then evs else [DEv.bround k picks.length] ++ evs
-      if active.isEmpty then some ({ s with phase := .bucketStart (k + 1) }, evs)
-      else some ({ s with phase := .buckets k active }, evs)
-    else some (s.sweepDone now)
+      match sleepUntil with
+      | some t => if t ≤ now then s.firstRoundSend tid rl nl count active responses stopAt now else none
+      | none =>
+        if count > Constants.BOOTSTRAP_THROTTLE_AFTER then
+          some ({ s with phase := .initial tid rl nl (some (now + throttleDelay)) count active responses stopAt }, [])
+        else s.firstRoundSend tid rl nl count active responses stopAt now
+  | .bucketStart k => if k < maxBuckets then some (s.bucketRound k now) else some (s.sweepDone now)
   | .buckets k active =>
     let live := active.filter (fun p => now < p.deadline)
     if live.isEmpty then some ({ s with phase := .bucketStart (k + 1) }, [])
@@ -288,13 +293,16 @@ def DState.startQueued (s : DState) (now : Nat) : DState × List DEv :=
     let r := acc.1.startLookup q.1 q.2 now
     (r.1, acc.2 ++ r.2)) ({ s with queued := [] }, [])
 
+/-- the refresh chain is started by the first bootstrap completion only (the F18 repair) -/
+def DState.firstRefresh (s : DState) (now : Nat) : DState × List DEv :=
+  if s.refreshStarted then (s, []) else ({ s with refreshStarted := true }).refreshRound now
+
 /-- `handle_bootstrap_success` -/
 def DState.bootstrapSuccess (s : DState) (now : Nat) : DState × List DEv :=
-  let resolved := s.waiters.map DEv.resolved
-  let s := { s with waiters := [] }
-  let (s, e1) := if s.refreshStarted then (s, []) else ({ s with refreshStarted := true }).refreshRound now
-  let (s, e2) := ({ s with bootstrappedOnce := true }).startQueued now
-  (s, [DEv.bstate] ++ resolved ++ e1 ++ e2)
+  let r0 : DState × List DEv := ({ s with waiters := [] }, [DEv.bstate] ++ s.waiters.map DEv.resolved)
+  let r1 := r0.1.firstRefresh now
+  let r2 := ({ r1.1 with bootstrappedOnce := true }).startQueued now
+  (r2.1, r0.2 ++ (r1.2 ++ r2.2))
 
 /-- the `state_rx.changed()` branch of `run_once` -/
 def DState.hObserve (s : DState) (now : Nat) : DState × List DEv :=
@@ -309,24 +317,27 @@ def DState.settle (s : DState) (now : Nat) : DState × List DEv :=
   let r2 := r1.1.hObserve now
   (r2.1, r1.2 ++ r2.2)
 
-/-- the timer branch of `run_once`, for every entry that is due at `now` -/
+/-- the timer branch of `run_once` for the earliest entry, if it is due at `now` -/
+def DState.fireOne (s : DState) (now : Nat) : Option (DState × List DEv) :=
+  match s.h.timer.pop with
+  | none => none
+  | some (timer, e) =>
+    if e.deadline ≤ now then
+      let h := { s.h with timer := timer }
+      match e.task with
+      | .tableRefresh => let r := ({ s with h := h }).refreshRound now; some (r.1, [DEv.timer e.task] ++ r.2)
+      | task => let r := h.handleTask task now; some ({ s with h := r.1 }, [DEv.timer e.task] ++ liftH r.2)
+    else none
+
+/-- ... for every entry that is due at `now` -/
 def DState.fireDue : Nat → DState → Nat → DState × List DEv
   | 0, s, _ => (s, [])
   | fuel + 1, s, now =>
-    match s.h.timer.earliest with
+    match s.fireOne now with
     | none => (s, [])
-    | some e =>
-      if e.deadline ≤ now then
-        match s.h.timer.pop with
-        | none => (s, [])
-        | some (timer, _) =>
-          let h := { s.h with timer := timer }
-          let (s', evs) : DState × List DEv := match e.task with
-            | .tableRefresh => ({ s with h := h }).refreshRound now
-            | task => let r := h.handleTask task now; ({ s with h := r.1 }, liftH r.2)
-          let r := DState.fireDue fuel s' now
-          (r.1, [DEv.timer e.task] ++ evs ++ r.2)
-      else (s, [])
+    | some (s', evs) =>
+      let r := DState.fireDue fuel s' now
+      (r.1, evs ++ r.2)
 
 def minOpt (a b : Option Nat) : Option Nat :=
   match a, b with
@@ -349,6 +360,15 @@ def DState.nextDeadline (s : DState) : Option Nat :=
 
 /-- let time pass up to `t`: at each deadline the handler's due timer entries, then the worker
 (`bFirst`: the worker's task was polled before the handler's at coinciding deadlines) -/
+def DState.instant (bFirst : Bool) (s : DState) (d : Nat) : DState × List DEv :=
+  let s := { s with clock := d }
+  let r0 : DState × List DEv := if bFirst then DState.bRun bFuel s d else (s, [])
+  let r1 := DState.fireDue 1000 r0.1 d
+  let r2 := r1.1.settle d
+  (r2.1, r0.2 ++ r1.2 ++ r2.2)
+
+def stamp (t : Nat) (evs : List DEv) : List (Nat × DEv) := evs.map (fun e => (t, e))
+
 def DState.advance (bFirst : Bool) : Nat → DState → Nat → DState × List (Nat × DEv)
   | 0, s, _ => (s, [])
   | fuel + 1, s, t =>
@@ -356,11 +376,11 @@ def DState.advance (bFirst : Bool) : Nat → DState → Nat → DState × List (
     | none => (s, [])
     | some d =>
       if d ≤ t then
-        let r0 : DState × List DEv := if bFirst then DState.bRun bFuel s d else (s, [])
-        let r1 := DState.fireDue 1000 r0.1 d
-        let r2 := r1.1.settle d
-        let r := DState.advance bFirst fuel r2.1 t
-        (r.1, (r0.2 ++ r1.2 ++ r2.2).map (fun e => (d, e)) ++ r.2)
+        -- an entry whose deadline has already passed fires at the current instant
+        let d := max d s.clock
+        let r := s.instant bFirst d
+        let z := DState.advance bFirst fuel r.1 t
+        (z.1, stamp d r.2 ++ z.2)
       else (s, [])
 
 /-- the registered exchange a message from `src` with id `tid` completes, if any (after the F5
@@ -444,14 +464,36 @@ inductive DOp where
 def advFuel : Nat := 100000
 
 /-- one step: time passes up to `t` (everything that is due happens, in order), then the input -/
+def DState.input (s : DState) (op : DOp) (t : Nat) : DState × List DEv :=
+  match op with
+  | .adv => (s, [])
+  | .cmd c => s.command c t
+  | .datagram tid body src => s.datagram tid body src t
+  | .garbage src => (s, [.undecodable src])
+
 def DState.step (s : DState) (op : DOp) (t : Nat) (bFirst : Bool := false) : DState × List (Nat × DEv) :=
+  let t := max t s.clock
   let a := DState.advance bFirst advFuel s t
-  let r : DState × List DEv := match op with
-    | .adv => (a.1, [])
-    | .cmd c => a.1.command c t
-    | .datagram tid body src => a.1.datagram tid body src t
-    | .garbage src => (a.1, [.undecodable src])
+  let r := ({ a.1 with clock := t }).input op t
   let z := r.1.settle t
-  (z.1, a.2 ++ (r.2 ++ z.2).map (fun e => (t, e)))
+  (z.1, a.2 ++ stamp t (r.2 ++ z.2))
+
+/-- an input with its oracle annotations -/
+structure DInput where
+  op : DOp
+  t : Nat
+  bFirst : Bool
+  fr : List Addr
+
+def DState.stepIn (s : DState) (i : DInput) : DState × List (Nat × DEv) :=
+  ({ s with frOracle := i.fr }).step i.op i.t i.bFirst
+
+/-- a whole run: all events in order -/
+def DState.run (s : DState) : List DInput → DState × List (Nat × DEv)
+  | [] => (s, [])
+  | i :: rest =>
+    let r := s.stepIn i
+    let z := DState.run r.1 rest
+    (z.1, r.2 ++ z.2)
 
 end Btdht
